@@ -726,4 +726,127 @@ theorem inv_run_asShipped (N : Nat) (c : Cand) (hist : List Delivery) (inv : Inv
     exact ih _ (inv_deliver_asShipped N c d inv (hc d (by simp))) (noSelf_deliver_asShipped N c d hn (hc d (by simp)))
       (fun x hx => hc x (by simp [hx]))
 
+
+/-! ### map iteration order: the `done` component of the signature-count path -/
+
+theorem cdInner_none (thr : Nat) (sigs : List ESig) (ec : Nat) (cnt : Nat → Nat)
+    (h : (cdInner thr sigs ec cnt).2.2 = none) (hc : ∀ p, cnt p ≤ thr) :
+    (∀ p, (cdInner thr sigs ec cnt).2.1 p = cnt p + occSigs p sigs) ∧ (∀ p, (cdInner thr sigs ec cnt).2.1 p ≤ thr) := by
+  induction sigs generalizing ec cnt with
+  | nil => simp [cdInner, occSigs, hc]
+  | cons s r ih =>
+    cases hfe : s.forEmpty with
+    | true =>
+      have e : cdInner thr (s :: r) ec cnt = cdInner thr r (ec + 1) cnt := by simp [cdInner, hfe]
+      rw [e] at h ⊢
+      obtain ⟨h1, h2⟩ := ih (ec + 1) cnt h hc
+      refine ⟨fun p => ?_, h2⟩
+      rw [h1 p, occSigs_cons]; simp [hfe]
+    | false =>
+      by_cases hthr : thr < bump cnt s.proposer s.proposer
+      · have e : cdInner thr (s :: r) ec cnt = (ec, bump cnt s.proposer, some s.proposer) := by
+          simp [cdInner, hfe, hthr]
+        rw [e] at h; simp at h
+      · have e : cdInner thr (s :: r) ec cnt = cdInner thr r ec (bump cnt s.proposer) := by
+          simp [cdInner, hfe, hthr]
+        rw [e] at h ⊢
+        have hc' : ∀ p, bump cnt s.proposer p ≤ thr := by
+          intro p
+          by_cases hp : p = s.proposer
+          · subst hp; omega
+          · rw [bump_ne _ _ _ hp]; exact hc p
+        obtain ⟨h1, h2⟩ := ih ec (bump cnt s.proposer) h hc'
+        refine ⟨fun p => ?_, h2⟩
+        rw [h1 p, occSigs_cons]
+        by_cases hp : p = s.proposer
+        · subst hp; rw [bump_self]; simp [hfe]; omega
+        · have hne : ¬ s.proposer = p := fun e => hp e.symm
+          rw [bump_ne _ _ _ hp]; simp [hne]
+
+theorem cdInner_some_mem (thr : Nat) (sigs : List ESig) (ec : Nat) (cnt : Nat → Nat) (p : Nat)
+    (h : (cdInner thr sigs ec cnt).2.2 = some p) : ∃ s ∈ sigs, s.proposer = p := by
+  induction sigs generalizing ec cnt with
+  | nil => simp [cdInner] at h
+  | cons s r ih =>
+    cases hfe : s.forEmpty with
+    | true =>
+      have e : cdInner thr (s :: r) ec cnt = cdInner thr r (ec + 1) cnt := by simp [cdInner, hfe]
+      rw [e] at h
+      obtain ⟨x, hx, hp⟩ := ih _ _ h
+      exact ⟨x, by simp [hx], hp⟩
+    | false =>
+      by_cases hthr : thr < bump cnt s.proposer s.proposer
+      · have e : cdInner thr (s :: r) ec cnt = (ec, bump cnt s.proposer, some s.proposer) := by
+          simp [cdInner, hfe, hthr]
+        rw [e] at h; simp at h
+        exact ⟨s, by simp, h⟩
+      · have e : cdInner thr (s :: r) ec cnt = cdInner thr r ec (bump cnt s.proposer) := by
+          simp [cdInner, hfe, hthr]
+        rw [e] at h
+        obtain ⟨x, hx, hp⟩ := ih _ _ h
+        exact ⟨x, by simp [hx], hp⟩
+
+/-- no verdict ⇒ no proposer has more than `thr` non-empty endorse signatures (when no entry names the sentinel) -/
+theorem cdOuter_none (isEnd : Nat → Bool) (thr : Nat) (V : List (Nat × List ESig)) (ec : Nat) (cnt : Nat → Nat)
+    (fe : Bool) (fe' : Bool) (hs : ∀ x ∈ V, ∀ s ∈ x.2, s.proposer ≠ maxU32) (hc : ∀ p, cnt p ≤ thr)
+    (h : cdOuter isEnd thr V ec cnt fe = (maxU32, fe')) : ∀ p, cnt p + occ p V ≤ thr := by
+  induction V generalizing ec cnt fe with
+  | nil => intro p; simp [occ]; exact hc p
+  | cons x r ih =>
+    obtain ⟨e, sigs⟩ := x
+    unfold cdOuter at h
+    simp only at h
+    generalize hec1 : (if (!isEnd e) = true then ec + (List.filter (fun x => x.forEmpty) sigs).length else ec) = ec1 at h
+    have hn := cdInner_none thr sigs ec1 cnt
+    have hm := cdInner_some_mem thr sigs ec1 cnt
+    rcases hres : cdInner thr sigs ec1 cnt with ⟨ec2, cnt2, res⟩
+    rw [hres] at h hn hm
+    simp only at hn hm
+    have hocc : ∀ p, occ p ((e, sigs) :: r) = occSigs p sigs + occ p r := by intro p; simp [occ]
+    cases res with
+    | none =>
+      simp only at h
+      obtain ⟨h1, h2⟩ := hn rfl hc
+      intro p
+      have := ih _ _ _ (fun y hy => hs y (by simp [hy])) h2 h p
+      rw [h1 p] at this; rw [hocc]; omega
+    | some p0 =>
+      simp only at h
+      obtain ⟨s, hsm, hsp⟩ := hm p0 rfl
+      have hp0 : p0 ≠ maxU32 := hsp ▸ hs (e, sigs) (by simp) s hsm
+      have hb : (p0 != maxU32) = true := by simp [hp0]
+      simp only [hb, if_true] at h
+      have : p0 = maxU32 := by injection h
+      exact absurd this hp0
+
+theorem occ_perm (p : Nat) (V W : List (Nat × List ESig)) (h : V.Perm W) : occ p V = occ p W := by
+  unfold occ
+  exact (h.map _).sum_nat
+
+/-- **Order independence of `done` on the signature-count path**: when no stored entry names the sentinel proposer
+`MaxUint32`, whether the loop reaches a verdict does not depend on the map iteration order. -/
+theorem cdOuter_done_order_independent (isEnd : Nat → Bool) (thr : Nat) (es : List (Nat × List ESig))
+    (o1 o2 : List Nat) (hp : o1.Perm o2) (hs : ∀ i sigs, lookup i es = some sigs → ∀ s ∈ sigs, s.proposer ≠ maxU32)
+    (fe : Bool) :
+    ((cdOuter isEnd thr (visit es o1) 0 (fun _ => 0) fe).1 = maxU32) ↔
+    ((cdOuter isEnd thr (visit es o2) 0 (fun _ => 0) fe).1 = maxU32) := by
+  have key : ∀ (a b : List Nat), a.Perm b →
+      (cdOuter isEnd thr (visit es a) 0 (fun _ => 0) fe).1 = maxU32 →
+      (cdOuter isEnd thr (visit es b) 0 (fun _ => 0) fe).1 = maxU32 := by
+    intro a b hab ha
+    have hsa : ∀ o : List Nat, ∀ x ∈ visit es o, ∀ s ∈ x.2, s.proposer ≠ maxU32 :=
+      fun o x hx => hs x.1 x.2 (mem_visit es o x hx)
+    rcases hra : cdOuter isEnd thr (visit es a) 0 (fun _ => 0) fe with ⟨pa, fa⟩
+    rw [hra] at ha; simp only at ha; subst ha
+    have hle := cdOuter_none isEnd thr _ 0 (fun _ => 0) fe fa (hsa a) (fun _ => Nat.zero_le _) hra
+    rcases hrb : cdOuter isEnd thr (visit es b) 0 (fun _ => 0) fe with ⟨pb, fb⟩
+    simp only
+    refine Classical.byContradiction fun hne => ?_
+    have hb := cdOuter_bound isEnd thr _ _ _ _ _ _ hrb hne
+    have hperm : (visit es a).Perm (visit es b) := hab.filterMap _
+    have := hle pb
+    rw [occ_perm pb _ _ hperm] at this
+    omega
+  exact ⟨key o1 o2 hp, key o2 o1 hp.symm⟩
+
 end OntVerif.Proofs.BlockPool
